@@ -166,6 +166,11 @@ func (a *arch1) materialise(dir string, disk map[string][]byte, vols []int) erro
 		}
 	}
 	for p, b := range a.Others {
+		if _, isProt := a.Prot[p]; isProt {
+			// harness invariant: a bystander must never be written over a protected file (that would be damage
+			// the harness did not account for, and a false alarm)
+			return fmt.Errorf("harness: bystander %q collides with a protected file", p)
+		}
 		if err := sandbox.WriteFile(filepath.Join(dir, filepath.FromSlash(p)), b); err != nil {
 			return err
 		}
